@@ -34,7 +34,7 @@ func deleteChildOperator(d *dataTreeNavigator, context Context, expressionNode *
 		childPath := candidatePath[len(candidatePath)-1]
 
 		if parentNode.Kind == MappingNode {
-			deleteFromMap(candidate.Parent, childPath)
+			deleteFromMap(candidate.Parent, candidate, childPath)
 		} else if parentNode.Kind == SequenceNode {
 			deleteFromArray(candidate.Parent, candidate, childPath)
 		} else {
@@ -57,16 +57,29 @@ func removeFromContext(context Context, candidate *CandidateNode) (Context, erro
 	return context.ChildContext(newResults), nil
 }
 
-func deleteFromMap(node *CandidateNode, childPath interface{}) {
+func deleteFromMap(node *CandidateNode, candidate *CandidateNode, childPath interface{}) {
 	log.Debug("deleteFromMap")
 	contents := node.Content
 	newContents := make([]*CandidateNode, 0)
+
+	// find the entry itself first (its key may be a number spelt 0x1F, which the path records as 31)
+	position := -1
+	for index := 0; index+1 < len(contents); index = index + 2 {
+		if contents[index+1] == candidate || contents[index] == candidate {
+			position = index
+			break
+		}
+	}
 
 	for index := 0; index < len(contents); index = index + 2 {
 		key := contents[index]
 		value := contents[index+1]
 
-		shouldDelete := key.Value == childPath
+		shouldDelete := index == position
+		if position < 0 {
+			// childPath is an int for keys that are numbers (`1: a`): compare the spelling
+			shouldDelete = key.Value == fmt.Sprintf("%v", childPath)
+		}
 
 		log.Debugf("shouldDelete %v? %v == %v = %v", NodeToString(value), key.Value, childPath, shouldDelete)
 
